@@ -13,6 +13,12 @@ func ProbeFuncs() map[string]Builtin {
 		"t":    probeT,
 		"boom": func(in *Interp, c *gt.T) (Val, *RunErr) { return Void, in.errAt(c, "boom") },
 		"void": func(in *Interp, c *gt.T) (Val, *RunErr) { return Void, nil },
+		// tick(): 1, 2, 3, ... - the number of tick() calls of this run so far
+		// (a condition that changes between iterations without naming a variable)
+		"tick": func(in *Interp, c *gt.T) (Val, *RunErr) {
+			in.Shared.Ticks++
+			return Val{in.Shared.Ticks, TInt}, nil
+		},
 		// sink(a, b=0), vsink(...rest): evaluate their arguments, return nothing (v2 probes)
 		"sink":  probeSink,
 		"vsink": probeSink,
